@@ -485,6 +485,9 @@ def xstack_effect(opcode, opc, oparg: int = 0, jump=None):
         return 1 - oparg
     elif opname == "BUILD_SLICE":
         return -2 if oparg == 3 else -1
+    elif opname == "FORMAT_VALUE":
+        # one more item (the format spec) is popped when flag bit 0x04 is set
+        return -1 if (oparg & 0x04) == 0x04 else 0
     elif opname == "LOAD_ATTR" and version_tuple >= (3, 12):
         return 1 if oparg & 1 else 0
     elif opname == "MAKE_FUNCTION":
